@@ -1117,6 +1117,7 @@ func runC09(c *Ctx) {
 	c09Timed(c, "c09Call2", c09Call2)         // ---- 2g. full call statements, return, retain, pipeline bodies (c09call2.go)
 	c09Timed(c, "c09Stage", c09Stage)         // ---- 2h. whole stage declarations: Stage.format / the grammar's stage production (c09stage.go)
 	c09Timed(c, "c09Pipe", c09Pipe)           // ---- 2i. whole pipeline declarations incl. the reordering of calls (c09pipe.go)
+	c09Timed(c, "c09File", c09File)           // ---- 2j. whole comment-free files: Ast.format / the grammar's file production / NewAst (c09file.go)
 
 	// ---- 3. formatter monitors ----
 	progSeeds, _ := c08LoadSeeds(c)
